@@ -25,5 +25,5 @@ one() {
   git -C /repo worktree remove --force "$wt" 2>/dev/null; rm -rf "$wt" "$ev"
 }
 export -f one
-echo $ids | tr ' ' '\n' | xargs -P 8 -I{} bash -c "one {} $src" | sort > "$out"
+echo $ids | tr ' ' '\n' | xargs -P ${CM_PAR:-8} -I{} bash -c "one {} $src" | sort > "$out"
 cat "$out"
